@@ -33,6 +33,41 @@ static Json::Value genC06(Rng& rng) {
   plan["interval"] = rng.pick({1, 2, 5});
   int ticks = (int)rng.range(5, 16);
   plan["ticks"] = ticks;
+  // ruleset-cgroup plans: cgroups vanish while a per-cgroup chain is
+  // suspended - one of them, or all at once - and come back after at least one
+  // absent tick (the suspended chain belongs to the old cgroup)
+  if (o.cgroupRulesetP > 0 && rng.chance(0.6)) {
+    std::vector<std::string> tops;
+    for (const auto& c : plan["world"]["cgroups"]) {
+      std::string p = c["path"].asString();
+      if (p.find('/') == std::string::npos)
+        tops.push_back(p);
+    }
+    if (!tops.empty() && ticks >= 5) {
+      int t1 = (int)rng.range(1, ticks - 3);
+      int t2 = (int)rng.range(t1 + 2, ticks - 1);
+      bool all = rng.chance(0.5);
+      std::vector<std::string> gone;
+      for (auto& p : tops)
+        if (all || rng.chance(0.4))
+          gone.push_back(p);
+      for (auto& p : gone) {
+        Json::Value op(Json::objectValue);
+        op["t"] = t1;
+        op["op"] = "rm";
+        op["cg"] = p;
+        plan["ops"].append(op);
+      }
+      for (auto& p : gone)
+        if (rng.chance(0.7)) {
+          Json::Value op(Json::objectValue);
+          op["t"] = t2;
+          op["op"] = "mk";
+          op["v"]["path"] = p;
+          plan["ops"].append(op);
+        }
+    }
+  }
   if (rng.chance(0.4))
     addTickDelays(rng, plan, ticks);
   plan["clock_off"] = (Json::Int64)rng.range(0, 999999999);
